@@ -33,13 +33,15 @@ def one(e):
         if r.returncode != 0:
             return False, [f'SKIP {name}: patch does not apply: {r.stderr.strip()[:200]}']
         for prop in e['property'] if isinstance(e['property'], list) else [e['property']]:
-            env = dict(os.environ, VERIF_REPO=wt, VERIF_EVIDENCE_DIR=f'{wt}.out/evidence', VERIF_OUT=f'{wt}.out/out')
+            env = dict(os.environ, VERIF_REPO=wt, VERIF_EVIDENCE_DIR=f'{wt}.out/evidence', VERIF_OUT=f'{wt}.out/out', VERIF_JOBS=str(max(2, 16 // J)))
             r = sh(f'cd {V} && ./check {prop} quick', env=env)
             viol = [l for l in r.stdout.splitlines() if l.startswith('VIOLATION')]
             failed = [l for l in r.stdout.splitlines() if 'failed obligation' in l]
             hit = all(any(x in l for l in failed) for x in e.get('expect', []))
             if r.returncode == 1 and viol and hit:
-                lines.append(f'CAUGHT {name} by {prop}: {len(failed)} obligation(s), e.g. {failed[0].strip()[:160] if failed else ""}')
+                lines.append(f'CAUGHT {name} by {prop}: {len(failed)} obligation(s), e.g. {failed[0].strip()[:160] if failed else ""}' + (' (was a known miss: update expect.json)' if e.get('expect_missed') else ''))
+            elif e.get('expect_missed') and r.returncode == 0:
+                lines.append(f'missed {name} by {prop} (known miss: {e.get("note","")})')
             else:
                 ok = False
                 lines.append(f'MISSED {name} by {prop}: exit={r.returncode} violations={len(viol)} expected={e.get("expect")} {(r.stderr or "")[-300:].strip() if r.returncode not in (0,1) else ""}')
